@@ -1405,10 +1405,12 @@ def _mode_session(ctx, rng, i, d):
     comp = MOFCompiler(handle, search_paths=[d], log_func=None)
     failed_before = False
     history = []
+    last_failed = None
     for step in range(rng.choice([3, 4, 6])):
         # ---- the files change between calls: damage or repair -------------
         r = rng.random()
-        if damaged and r < 0.5:
+        retry = last_failed is not None and rng.random() < 0.45
+        if damaged and (r < 0.5 or (retry and r < 0.8)):
             for name in list(damaged):
                 current[name] = SESSION_FILES[name]
                 session_apply(d, name, current[name])
@@ -1421,8 +1423,15 @@ def _mode_session(ctx, rng, i, d):
             session_apply(d, name, content)
             damaged[name] = kind
             history.append('%s: %s' % (name, kind))
-        label, api, arg, text, expect_file = session_call(rng, d,
-                                                          bool(damaged))
+        if retry:
+            # the user repairs the environment (or not) and repeats the call
+            # that failed
+            label, api, arg, text = last_failed
+            label = 'retry/' + label.replace('retry/', '')
+            expect_file = False
+        else:
+            label, api, arg, text, expect_file = session_call(
+                rng, d, bool(damaged))
         ns = 'root/s%d' % step
         files = {os.path.abspath(os.path.join(d, n)): (
             c if isinstance(c, bytes) else re.sub('\r\n?', '\n', c))
@@ -1475,6 +1484,7 @@ def _mode_session(ctx, rng, i, d):
                         'after a failed compile the same MOFCompiler object '
                         'compiles %s to other objects than a fresh compiler: '
                         '%s' % (label, dd), detail)
+        last_failed = (label, api, arg, text) if exc is not None else None
         if exc is not None:
             failed_before = True
             ctx.count('session.failures')
